@@ -512,7 +512,7 @@ def r06_8(ctx: Ctx):
 def r06_9(ctx: Ctx):
     """R06.9 every engine observes the GSC after each of its generations (shared engine typestate of R05.4): a deme that never looks stays active when the run stops."""
     out = []
-    for o in c05.r05_4(ctx, between_generations=False):
+    for o in c05.r05_4(ctx, between_generations=False, exit_dirty=True):
         if "evaluated after the GSC was observed true" in o.detail:
             continue  # C05's wind-down bound; the lifecycle only needs the deme to observe the GSC before it returns
         o.rule = "R06.9"
